@@ -689,7 +689,7 @@ Definition norm_host_port (host : ustr) : res ustr :=
     end
   else Ok (unbracket host).
 
-Record net_oracle := { resolves : ustr -> bool }.   (* coring.normalizeHost does not raise OSError *)
+Record net_oracle := { resolves : ustr -> bool }.   (* coring.normalizeHost raises neither OSError nor UnicodeError (IDNA) *)
 
 Definition redirect_site (o : url_oracle) (n : net_oracle) (location : ustr) : res unit :=
   match location with
@@ -701,6 +701,7 @@ Definition redirect_site (o : url_oracle) (n : net_oracle) (location : ustr) : r
             (bind (urlsplit o loc) (fun s => bind (url_port (u_netloc s)) (fun pt => Ok s))) with
     | Exc k => Exc k
     | Ok s =>
+      if starts_with [47; 47] (u_path s) then Exc HTTPExc else    (* Requester.build would re-split it as host:port *)
       let host := url_hostname (u_netloc s) in
       match host with
       | [] => Ok tt                                         (* relative: same connection *)
